@@ -212,6 +212,14 @@ Theorem c08_nx_pack_roundtrip : forall syms src,
 Proof. exact pack_roundtrip. Qed.
 Print Assumptions c08_nx_pack_roundtrip.
 
+(* bit PACK with the context build_context derives from the input itself (every symbol that
+   occurs is in the table; None = no or more than 16 symbols, the encoder then drops PACK) *)
+Theorem c08_nx_pack_build_roundtrip : forall src syms,
+  Forall (fun b => b < 256) src -> pack_build src = Some syms ->
+  pack_decode syms (pack_encode syms src) (length src) = DOk src.
+Proof. exact pack_build_roundtrip. Qed.
+Print Assumptions c08_nx_pack_build_roundtrip.
+
 (* whole stream, CAT (given, or forced because fewer than N bytes are coded), any ORDER / N32 /
    NO_SIZE: noodles' decoder model returns the input *)
 Theorem c08_nx_cat_roundtrip : forall f src,
